@@ -244,6 +244,13 @@ def run(ctx):
                 cfg.perturb_ctor = True
         kfacsim.fix_loads(cfg)
         cfgs.append(cfg)
+    # directed corner: second-order data that is broadcast (COMM-/HYBRID-OPT) with symmetry-aware communication on —
+    # eigenvector matrices are not symmetric, inverses are
+    for method in ('eigen', 'eigen', 'inverse'):
+        for world, k in ((2, 2), (4, 4), (4, 2)):
+            cfg = kfacsim.Config(rng, world=world, k=k, method=method, sym=True, prediv=(method == 'eigen' and rng.random() < 0.5))
+            cfg.ops = (['f1'] * cfg.accum + ['s']) * rng.randrange(1, 3)
+            cfgs.append(cfg)
     kfacsim.run_batch(ctx, cfgs, ('grads',), oracles=(kfacsim.oracle_reference,), whole_only_oracles=False)
 
 
